@@ -57,6 +57,10 @@ if TYPE_CHECKING:
 log = logging.getLogger(__name__)
 
 
+# The largest CID (ISO 32000-1 Annex C)
+MAX_CID = 65535
+
+
 def get_widths(seq: Iterable[object]) -> Dict[Union[str, int], float]:
     """Build a mapping of character widths for horizontal writing."""
     widths: Dict[int, float] = {}
@@ -74,7 +78,8 @@ def get_widths(seq: Iterable[object]) -> Dict[Union[str, int], float]:
             if len(r) == 3:
                 (char1, char2, w) = r
                 if isinstance(char1, int) and isinstance(char2, int):
-                    for i in range(cast(int, char1), cast(int, char2) + 1):
+                    # CIDs are at most 65535; do not loop over an absurd range
+                    for i in range(char1, min(char2, MAX_CID) + 1):
                         widths[i] = w
                 else:
                     log.warning(
@@ -103,8 +108,13 @@ def get_widths2(seq: Iterable[object]) -> Dict[int, Tuple[float, Point]]:
             r.append(v)
             if len(r) == 5:
                 (char1, char2, w, vx, vy) = r
-                for i in range(cast(int, char1), cast(int, char2) + 1):
-                    widths[i] = (w, (vx, vy))
+                if isinstance(char1, int) and isinstance(char2, int):
+                    for i in range(char1, min(char2, MAX_CID) + 1):
+                        widths[i] = (w, (vx, vy))
+                else:
+                    log.warning(
+                        f"Skipping invalid font width specification for {char1} to {char2} because either of them is not an int"
+                    )
                 r = []
     return widths
 
